@@ -222,11 +222,13 @@ func (n *node[K, V]) collect(t *Trie[K, V], prefix K) (Queuer[K], error) {
 		return t.q, ErrorNotFound
 	}
 
+	// Convert the byte itself: K(n.c) would re-encode it as a rune.
+	c := K([]byte{n.c})
 	n.left.collect(t, prefix)
 	if n.isValid {
-		t.q.Enqueue(prefix + K(n.c))
+		t.q.Enqueue(prefix + c)
 	}
-	n.mid.collect(t, prefix+K(n.c))
+	n.mid.collect(t, prefix+c)
 
 	return n.right.collect(t, prefix)
 }
